@@ -21,6 +21,7 @@ import (
 	"fmt"
 	"math/rand"
 	"net"
+	"net/netip"
 	"os"
 	"os/exec"
 	"regexp"
@@ -549,6 +550,16 @@ type labelRec struct {
 	ID    int    `json:"id"`
 }
 
+type everKeys struct {
+	peers  map[netip.Addr]bool
+	labels map[m.SwitchLabel]bool
+}
+
+var (
+	everMu sync.Mutex
+	ever   = map[*world.Node]*everKeys{}
+)
+
 // snapshot records the registry of every router against the live link objects the driver knows.
 // live: link objects whose set-up returned success and that are not closing.
 func snapshot(nodes []*world.Node, names map[*world.Node]string, live map[peering.Link]*world.Node, tag string) (events []any, broken []string) {
@@ -603,6 +614,44 @@ func snapshot(nodes []*world.Node, names map[*world.Node]string, live map[peerin
 				routes = append(routes, e.DstIP.String())
 			}
 			hops = append(hops, e.NextHop.String())
+		}
+		// the lookups, asked for every peer and every label this router ever had a link with: what they return is
+		// what can be FOUND - a link that is in no table any more and still comes back from a lookup is a ghost like
+		// one that stayed in a table
+		everMu.Lock()
+		ek := ever[nd]
+		if ek == nil {
+			ek = &everKeys{peers: map[netip.Addr]bool{}, labels: map[m.SwitchLabel]bool{}}
+			ever[nd] = ek
+		}
+		for _, l := range order {
+			if live[l] == nd {
+				ek.peers[l.Peer()], ek.labels[l.SwitchLabel()] = true, true
+			}
+		}
+		for _, l := range byPeer {
+			ek.peers[l.Peer()], ek.labels[l.SwitchLabel()] = true, true
+		}
+		var evPeers []netip.Addr
+		var evLabels []m.SwitchLabel
+		for p := range ek.peers {
+			evPeers = append(evPeers, p)
+		}
+		for lb := range ek.labels {
+			evLabels = append(evLabels, lb)
+		}
+		everMu.Unlock()
+		sort.Slice(evPeers, func(i, j int) bool { return evPeers[i].Less(evPeers[j]) })
+		sort.Slice(evLabels, func(i, j int) bool { return evLabels[i] < evLabels[j] })
+		for _, p := range evPeers {
+			if l := nd.Peer.GetLink(p); l != nil && byPeer[p.String()] != l {
+				bp = append(bp, peerRec{p.String(), ids[l]})
+			}
+		}
+		for _, lb := range evLabels {
+			if l := nd.Peer.GetLinkByLabel(lb); l != nil && byLabel[uint64(lb)] != l {
+				bl = append(bl, labelRec{uint64(lb), ids[l]})
+			}
 		}
 		// GetLink / GetLinkByLabel / GetLinks must agree with the tables they read
 		for _, l := range order {
@@ -1004,6 +1053,13 @@ func run0(c *vf.Ctx) {
 	c.Logf("T: %d churn rounds + %d under the race detector (%d race reports); %d snapshot events in total", rounds, raceRounds, len(races), len(allEvents))
 	if len(allEvents) < 200 {
 		c.Broken("only %d snapshots were taken", len(allEvents))
+	}
+
+	// ---- registry functions frozen at their calls into a link while the link is closed
+	for _, ev := range yieldStage(c) {
+		tag := fmt.Sprint(ev.(map[string]any)["tag"])
+		origins = append(origins, origin{"yield", []act{{Name: tag}}})
+		allEvents = append(allEvents, ev)
 	}
 
 	// ---- verdict by TLC
